@@ -1279,6 +1279,24 @@ impl Worterbuch {
         value.and_then(|it| serde_json::from_value(it).ok())
     }
 
+    /// The grave goods and the last will that `disconnected` is going to apply for this client
+    /// (entries the client is not allowed to touch are skipped there, so they are left out here).
+    pub(crate) fn disconnect_effects(&self, client_id: &ClientId) -> (GraveGoods, LastWill) {
+        let grave_goods = self
+            .grave_goods_for_client(client_id)
+            .unwrap_or_default()
+            .into_iter()
+            .filter(|pattern| check_for_read_only_key(pattern, *client_id).is_ok())
+            .collect();
+        let last_will = self
+            .last_will_for_client(client_id)
+            .unwrap_or_default()
+            .into_iter()
+            .filter(|kvp| check_for_read_only_key(&kvp.key, *client_id).is_ok())
+            .collect();
+        (grave_goods, last_will)
+    }
+
     pub async fn disconnected(
         &mut self,
         client_id: ClientId,
